@@ -162,6 +162,9 @@ func (r *recB44) Put(i *bep44.Item) error {
 	var ip net.IP
 	if r.h.lastPut != nil {
 		ip = r.h.lastPut.IP
+		if r.h.o.customAddr {
+			ip = ip.To16() // the form in which the source of this put was logged (ajOf)
+		}
 	}
 	r.h.cbs = append(r.h.cbs, cbRec{"StorePut", sim.Hex(t[:]), ip, 0, true})
 	r.h.mu.Unlock()
